@@ -116,8 +116,16 @@ def summarize(pid, tier, seed, results, meta, t_start, extra_cov=None, known_lin
         cov.update(extra_cov)
     if bounded:
         cov.update(bounded)
+    level = meta.get("level", "proof")
+    if level == "exploration":
+        # the deciding part of this check is the bounded real-code stand-in: report its measured counts as the coverage of record
+        bs = (bounded or {}).get("bounded_stand_ins") or []
+        cov["evaluations"] = int(sum(b.get("evaluations", 0) for b in bs))
+        cov["distinct_nontrivial"] = int(sum(b.get("distinct_nontrivial", 0) for b in bs))
+        cov["rule"] = " | ".join(b.get("rule", "") for b in bs)
+        cov["lemma_obligations_discharged_by_solver"] = discharged
     ev = dict(
-        property_id=pid, tier=tier, seed=seed, level="proof", coverage=cov, assumptions=[("%s: %s" % (a, ASSUMPTIONS.get(a, ""))) if a in ASSUMPTIONS else a for a in meta.get("assumptions", [])],
+        property_id=pid, tier=tier, seed=seed, level=level, coverage=cov, assumptions=[("%s: %s" % (a, ASSUMPTIONS.get(a, ""))) if a in ASSUMPTIONS else a for a in meta.get("assumptions", [])],
         wall_s=round(time.time() - t_start, 2), violations=0,
     )
     return ev, refuted, unknown, undecided, errors
